@@ -28,17 +28,23 @@ CONSTANTS RF1,          \* replication factors explored with one series
                         \* and the tenant's TSDB is not ready; with it in Outcomes Init also picks the local node.
                         \* A write that carries several tenants is still ONE write with ONE answer.
           ReplThresholdIsQuorum,
+          StaleMapReused,  \* TRUE models a handler that reuses the pooled distribution map of a request that was
+                           \* rejected in distribution WITHOUT clearing it (series ids then appear twice in a write's
+                           \* answer); the code clears the map before it goes back to the pool: FALSE
           WithTimeout,  \* also explore the forward timeout firing at any moment
           CaseRF1, CaseRF2, CaseRFLocal, CaseOutcomes   \* leg B case generation (see the end)
 
 VARIABLES rf, nn, nser, start, rep,   \* the request (chosen at Init, then constant)
+          rejectedBefore,             \* history: the previous request on this handler was rejected while its series were being
+                                      \* distributed (invalid split-tenant label, no hashring for the tenant) after some of its
+                                      \* series had been placed; invisible at property level: must not influence this request
           local,                      \* node that is the receiver itself (its write goes to the local TSDB), or -1
           outc,                       \* <node,replica> -> outcome (the fault assignment)
           pending,                    \* writes whose answer has not been accounted yet
           succ, fail, conf, errs,     \* per-series counters of fanoutForward
           result,                     \* 0 = still waiting, otherwise the HTTP status
           timedOut
-vars == <<rf, nn, nser, start, rep, local, outc, pending, succ, fail, conf, errs, result, timedOut>>
+vars == <<rf, nn, nser, start, rep, rejectedBefore, local, outc, pending, succ, fail, conf, errs, result, timedOut>>
 
 ErsOf(rf_, nn_, nser_, start_, rep_) ==
     LET reps == IF rep_ = 0 THEN 0..(rf_ - 1) ELSE {rep_ - 1} IN
@@ -57,6 +63,7 @@ Shapes == { [rf |-> r, nn |-> r, nser |-> 1] : r \in RF1 } \cup { [rf |-> r, nn 
 Init == /\ \E sh \in Shapes : rf = sh.rf /\ nn = sh.nn /\ nser = sh.nser
         /\ start \in { f \in [1..nser -> 0..(nn - 1)] : f[1] = 0 }
         /\ rep \in 0..rf
+        /\ rejectedBefore \in BOOLEAN
         /\ local \in (IF "notready" \in OutcomesOf(nser) THEN -1..(nn - 1) ELSE {-1})
         /\ \E down \in (IF "noconn" \in OutcomesOf(nser) THEN SUBSET ((0..(nn - 1)) \ {local}) ELSE {{}}) :
               \* a local write fails with conflicts, "not ready" or something else, never with a gRPC status;
@@ -77,8 +84,9 @@ Respond(er) ==
     /\ pending' = pending \ {er}
     /\ LET o == outc[er]
            hit == SeriesOf(er)
-           succ1 == [s \in S |-> IF s \in hit /\ o = "ok" THEN succ[s] + 1 ELSE succ[s]]
-           fail1 == [s \in S |-> IF s \in hit /\ o # "ok" THEN fail[s] + 1 ELSE fail[s]]
+           k == IF StaleMapReused /\ rejectedBefore THEN 2 ELSE 1   \* ids carried twice are counted twice
+           succ1 == [s \in S |-> IF s \in hit /\ o = "ok" THEN succ[s] + k ELSE succ[s]]
+           fail1 == [s \in S |-> IF s \in hit /\ o # "ok" THEN fail[s] + k ELSE fail[s]]
            conf1 == [s \in S |-> IF s \in hit /\ o = "conflict" THEN conf[s] + 1 ELSE conf[s]]
            errs1 == [s \in S |-> IF s \notin hit \/ o = "ok" THEN errs[s]
                                  ELSE [c |-> errs[s].c + (IF o = "conflict" THEN 1 ELSE 0),
@@ -88,29 +96,29 @@ Respond(er) ==
                                        o |-> errs[s].o + (IF o = "other" THEN 1 ELSE 0)]]
        IN /\ succ' = succ1 /\ fail' = fail1 /\ conf' = conf1 /\ errs' = errs1
           /\ result' = IF CanReturnEarly(S, succ1, conf1, ST, FT) THEN Decide(S, fail1, errs1, FT, TH) ELSE 0
-    /\ UNCHANGED <<rf, nn, nser, start, rep, local, outc, timedOut>>
+    /\ UNCHANGED <<rf, nn, nser, start, rep, rejectedBefore, local, outc, timedOut>>
 
 (* all writes answered, channel closed *)
 Closed == /\ result = 0 /\ pending = {}
           /\ result' = Decide(S, fail, errs, FT, TH)
-          /\ UNCHANGED <<rf, nn, nser, start, rep, local, outc, pending, succ, fail, conf, errs, timedOut>>
+          /\ UNCHANGED <<rf, nn, nser, start, rep, rejectedBefore, local, outc, pending, succ, fail, conf, errs, timedOut>>
 
 (* forward timeout: ctx.Err() -> 500 *)
 Timeout == /\ WithTimeout /\ result = 0
            /\ result' = 500 /\ timedOut' = TRUE
-           /\ UNCHANGED <<rf, nn, nser, start, rep, local, outc, pending, succ, fail, conf, errs>>
+           /\ UNCHANGED <<rf, nn, nser, start, rep, rejectedBefore, local, outc, pending, succ, fail, conf, errs>>
 
 Next == (\E er \in pending : Respond(er)) \/ Closed \/ Timeout
 Spec == Init /\ [][Next]_vars /\ WF_vars((\E er \in pending : Respond(er)) \/ Closed)
 
 (* ---------------- the properties ---------------- *)
 Tot(s, o) == Cardinality({ er \in Ers : s \in SeriesOf(er) /\ outc[er] = o })
-(* stored at answer time >= accounted successes; the model uses the accounted ones (worst case) *)
+(* stored at answer time >= the successful writes whose answer was accounted; the model uses those (worst case) *)
 Run == [status |-> result,
         series |-> [s \in S |-> [ok |-> Tot(s, "ok"), conflict |-> Tot(s, "conflict"),
                                  unavailable |-> Tot(s, "unavailable"), noconn |-> Tot(s, "noconn"), notready |-> Tot(s, "notready"),
                                  other |-> Tot(s, "other"),
-                                 stored |-> succ[s]]]]
+                                 stored |-> Cardinality({ er \in Ers \ pending : s \in SeriesOf(er) /\ outc[er] = "ok" })]]]
 N == ReplicasFor(rf, Replicated)
 QS == QuorumsFor(rf, Replicated)
 
